@@ -93,6 +93,33 @@ def build(pkg, race=False):
     return out
 
 
+def prune_work(max_age_s=3 * 3600):
+    """Build outputs of scratch worktrees (other VERIF_REPO paths) and old run directories pile up; drop stale ones."""
+    import shutil
+    now = time.time()
+    cur = hashlib.sha1(REPO.encode()).hexdigest()[:8]
+    try:
+        for sub in ("bin", "run"):
+            d = os.path.join(WORK, sub)
+            for name in os.listdir(d) if os.path.isdir(d) else []:
+                pth = os.path.join(d, name)
+                if sub == "bin" and name == cur:
+                    continue
+                try:
+                    if now - os.path.getmtime(pth) > (max_age_s if sub == "bin" else 4 * max_age_s):
+                        shutil.rmtree(pth, ignore_errors=True)
+                        if sub == "bin":
+                            for f in (f"go.verif.{name}.mod", f"go.verif.{name}.sum", f"overlay.{name}.json"):
+                                try:
+                                    os.remove(os.path.join(WORK, f))
+                                except OSError:
+                                    pass
+                except OSError:
+                    pass
+    except OSError:
+        pass
+
+
 def rapid_seed(seed, shard):
     s = (int(seed) * 2654435761 + shard * 40503) % (2 ** 62)
     return s if s != 0 else 1
@@ -119,6 +146,7 @@ def main():
     if pid not in CHECKS:
         log(f"unknown property {pid}")
         return 2
+    prune_work()
     try:
         seed = int(os.environ.get("VERIF_SEED", "1"))
     except ValueError:
